@@ -217,6 +217,14 @@ theorem histchunk_roundtrip (c : Chunk) (s0 : Stored) (ss : List Stored) (ok : P
     Prom.HistChunk.decodeChunk (Prom.HistChunk.encodeChunk c) = some c :=
   Prom.HistChunk.decodeChunk_encodeChunk c s0 ss ok
 
+/-- **histchunk_roundtrip (float histogram chunks, exponential schemas).**  The same for `FloatHistogramAppender` /
+    `floatHistogramIterator` (every value an `xorValue` with its own window): for float chunks whose samples have the
+    appender's shape (values are 64-bit patterns, staleness markers empty), decoding the encoded bytes gives back
+    exactly the chunk.  (No ordering condition on staleness markers is needed here.) -/
+theorem histchunk_roundtrip_float (c : Chunk) (s0 : Stored) (ss : List Stored) (ok : Prom.HistChunk.ChunkOkF c s0 ss) :
+    Prom.HistChunk.decodeChunkF (Prom.HistChunk.encodeChunk c) = some c :=
+  Prom.HistChunk.decodeChunkF_encodeChunk c s0 ss ok
+
 /-- **From appended histograms to bytes and back** (`append_roundtrip` ∘ `histchunk_roundtrip`).  Every chunk of a
     head series built by the transcribed appender from valid integer histograms far inside the int64 range
     (`SmallH`: |t| < 2^61, counts < 2^61, absolute bucket counts in [0, 2^60)) — whatever was cut, recoded forward
